@@ -14,28 +14,32 @@ EXTENDS JsonValue
 (* decoded once per alternative and the two results are reported as "conflicting values".           *)
 (* F-C06-6: the multipart decoder finds a part's schema only among the schema's own properties and  *)
 (* those of allOf members: a part declared inside oneOf/anyOf alternatives is "undefined".          *)
+(* F-C06-7: the JSON decoder reads the FIRST JSON value of the body and ignores whatever follows it: a body that is a JSON   *)
+(* value followed by more text ({"n":1} x, {"n":1}{"n":1}) is not JSON at all, yet it is accepted as the first value.           *)
 HasKeyK(v, k) == \E i \in DOMAIN v.k : v.k[i] = k
 Class(line, bad) ==
    LET c == line.c IN
-   IF c.part # "decode" THEN "none"
+   IF c.part = "malformed" /\ c.family = "json" /\ c.kind \in {"trailing", "two"} /\ bad = {"violating_body_rejected"} /\ line.verdict = "ok"
+   THEN "json_text_after_value_ignored"
+   ELSE IF c.part # "decode" THEN "none"
    ELSE IF c.family = "form" /\ c.schema \in {"S4", "S4a"} /\ HasKeyK(c.v, "ref") /\ Get(c.v, "ref").t = "num"
            /\ bad \subseteq {"conforming_body_accepted", "decoded_value"} /\ line.verdict = "other"
            /\ "dec" \in DOMAIN line /\ line.dec.err = "other"
    THEN "form_composition_conflicting_values"
-   ELSE IF c.family = "multipart" /\ c.schema \in {"S4", "S4a"} /\ bad \subseteq {"conforming_body_accepted", "decoded_value"}
+   ELSE IF c.family = "multipart" /\ (c.schema \in {"S4", "S4a"} \/ ("wrap" \in DOMAIN c /\ c.wrap \in {"anyOfT", "oneOfT"})) /\ c.v.k # <<>> /\ bad \subseteq {"conforming_body_accepted", "decoded_value"}
            /\ line.verdict = "parse" /\ "dec" \in DOMAIN line /\ line.dec.err = "parse"
    THEN "multipart_composition_part_undefined"
    ELSE IF c.family = "form" /\ HasKeyK(c.v, "u3") /\ bad \subseteq {"violating_body_rejected", "decoded_value"} /\ line.verdict = "ok"
            /\ "val" \in DOMAIN line.dec /\ ~HasKeyK(line.dec.val, "u3")
    THEN "form_untyped_property_dropped"
-   ELSE IF c.family \in {"form", "multipart"} /\ c.setDefaults /\ c.schema = "S3" /\ ~HasKeyK(c.v, "ro")
+   ELSE IF c.family \in {"form", "multipart", "yaml"} /\ c.setDefaults /\ c.schema = "S3" /\ ~HasKeyK(c.v, "ro")
            /\ "conforming_body_accepted" \in bad /\ "reason" \in DOMAIN line /\ line.reason = "rewriting failed"
    THEN "form_body_default_rewriting_failed"
    ELSE IF c.family = "form" /\ bad = {"violating_body_rejected"} /\ line.verdict = "ok"
            /\ \E i \in DOMAIN c.v.k : (c.v.k[i] \in {"n", "u1"} /\ c.v.v[i].t = "str")
                                       \/ (c.v.k[i] = "l" /\ \E j \in DOMAIN c.v.v[i].a : c.v.v[i].a[j].t = "str")
    THEN "form_unparsable_field_dropped"
-   ELSE IF c.family = "multipart" /\ HasNum(c.v) /\ bad \subseteq {"conforming_body_accepted", "decoded_value"}
+   ELSE IF c.family = "multipart" /\ ~("partCT" \in DOMAIN c /\ c.partCT = "json") /\ HasNum(c.v) /\ bad \subseteq {"conforming_body_accepted", "decoded_value"}
            /\ line.verdict \in {"schema", "ok"}
    THEN "multipart_text_part_not_typed"
    ELSE "none"
